@@ -725,7 +725,10 @@ let do_storm id ins outs =
   match ins, outs with
   | [k; evs], [md; ba] ->
     let tag = "k" ^ k ^ (if (try ignore (Str.search_forward (Str.regexp_string "panic") evs 0); true with Not_found -> false) then "/panic" else "") in
-    if c04_ok (z_of_int (int_of_string k)) (z_of_int (int_of_string md)) (z_of_int (int_of_string ba)) then verdict "storm" id "ok" tag ""
+    let two = (try ignore (Str.search_forward (Str.regexp_string "two_addresses") evs 0); true with Not_found -> false) in
+    let tag = if two then tag ^ "/2addr" else tag in
+    let zi s = z_of_int (int_of_string s) in
+    if (if two then c04_ok_multi (zi k) (z_of_int 2) (zi md) (zi ba) else c04_ok (zi k) (zi md) (zi ba)) then verdict "storm" id "ok" tag ""
     else verdict "storm" id "spec:C04" tag (Printf.sprintf "capacity=%s max inside resolver during storm=%s, inside together afterwards=%s (events %s)" k md ba evs)
   | _ -> verdict "storm" id "diff" "malformed-line" ""
 
